@@ -110,6 +110,8 @@ fn simple_server_prog(t: &Tape) -> ServerStreamProg {
         drop_without_response: false,
         late_informational: false,
         late_push: false,
+        push_mode: 0,
+        push_defer: 0,
     }
 }
 
